@@ -101,6 +101,44 @@ Theorem C35_ticket_keys_explicit : forall sha512 c now rnd,
 Proof. exact ticket_keys_explicit. Qed.
 Print Assumptions C35_ticket_keys_explicit.
 
+(* Whole-input framing: an accepted ticket IS  iv(16 bytes) || ct || HMAC_k(iv || ct)  of the ENTIRE input for a
+   configured key k — no byte may precede the iv, follow the tag, or sit between the parts (a ticket with a
+   prefix, a suffix, an insertion, or two tickets glued together is accepted only if that whole string has this shape). *)
+Theorem C35_ticket_whole_input : forall hmac ctr x509ok, crypto_laws hmac ctr ->
+  forall keys t s, DecryptTicket hmac ctr x509ok keys t = Some s ->
+  exists k, In k keys /\ length (t_iv t) = ivLen /\
+    t = t_iv t ++ t_ct t ++ hmac (k_hmac k) (t_iv t ++ t_ct t) /\
+    parse_state x509ok (ctr (k_aes k) (t_iv t) (t_ct t)) = Ok s.
+Proof.
+  intros hmac ctr x509ok (A & B & C).
+  exact (ticket_whole_input hmac ctr (fun _ => repeat 0 64) x509ok A B C (fun _ => repeat_length 0 64)).
+Qed.
+Print Assumptions C35_ticket_whole_input.
+
+(* A family of Configs (Config.Clone): in any history of SetSessionTicketKeys on any member and Clone of any member,
+   exactly the last list set on THIS config is in force on it; a clone starts as a copy of its source, changes no
+   existing config, and keeps what it inherited until it is itself set. *)
+Theorem C35_family_last_set : forall sha512 now st pre j ks suf st',
+  ks <> [] -> srun sha512 now st (pre ++ SSet j ks :: suf) = Ok st' ->
+  Forall (fun op => ~ touches j op) suf ->
+  exists c, nth_error st' j = Some c /\ map fst (c_keys c) = map (ticket_key_from_bytes sha512) ks.
+Proof. exact family_last_set. Qed.
+Print Assumptions C35_family_last_set.
+Theorem C35_clone_is_copy : forall sha512 now st i st', sstep sha512 now st (SClone i) = Ok st' ->
+  nth_error st' (length st) = nth_error st i /\ forall j, (j < length st)%nat -> nth_error st' j = nth_error st j.
+Proof. exact clone_is_copy. Qed.
+Theorem C35_family_clone_inherits : forall sha512 now st i st1 suf st' c,
+  sstep sha512 now st (SClone i) = Ok st1 -> nth_error st i = Some c -> srun sha512 now st1 suf = Ok st' ->
+  Forall (fun op => ~ touches (length st) op) suf -> nth_error st' (length st) = Some c.
+Proof. exact family_clone_inherits. Qed.
+Print Assumptions C35_family_clone_inherits.
+Example C35_ex_family :
+  match srun (fun b => b ++ b ++ b) 0%Z [new_config] [SSet 0 [[1];[2]]; SClone 0; SSet 0 [[3]]; SClone 1; SSet 1 [[4]]] with
+  | Ok st => map (fun c => length (c_keys c)) st = [1; 1; 2]%nat
+  | _ => False
+  end.
+Proof. vm_compute. reflexivity. Qed.
+
 (* TicketKeyFromBytes derives the keys SetSessionTicketKeys installs: SHA-512 bytes 16..31 and 32..47. *)
 Theorem C35_keys_same_derivation : forall sha512 c now b bs c',
   set_session_ticket_keys sha512 c now (b :: bs) = Ok c' ->
